@@ -1,5 +1,5 @@
-(* C04 - property theorems only (proofs in Server/StepLemmas.v, Server/Lifecycle.v) *)
-From VT Require Import Server.Lifecycle.
+(* C04 - property theorems only (proofs in Server/StepLemmas.v, Server/Lifecycle.v, Server/LifecycleStep.v) *)
+From VT Require Import Server.Lifecycle Server.LifecycleStep.
 Open Scope N_scope.
 
 (* ---- the state invariant: holds initially, preserved by every operation of every
@@ -262,3 +262,45 @@ Theorem C04_step_checker_shared_handler_refuted :
   exists c s o, Inv s /\ has_actions c = false /\ c04_step c s o (snd (step c s o)) = false.
 Proof. exact c04_step_shared_handler_refuted. Qed.
 Print Assumptions C04_step_checker_shared_handler_refuted.
+
+(* ---- the complete per-step checker c04_step on the generator's domain ----
+   c04_domain c s o :=
+     ids_separate c   (a handler id responsible for `disconnect` somewhere is responsible for no other event)
+  /\ st_domain s      (live transports have an environ entry; no namespace is called like a session id)
+  /\ op_domain c s o  (no leave/close of room None; the engine.io close reason is not a session id;
+                       no client EVENT literally named "disconnect")
+   Inv1 s := Inv s /\ "a session id belongs to one namespace" - an invariant of every operation. *)
+Theorem C04_invariant1_init : Inv1 srv_init.
+Proof. exact Inv1_init. Qed.
+Print Assumptions C04_invariant1_init.
+
+Theorem C04_invariant1_step : forall c s o, Inv1 s -> Inv1 (fst (step c s o)).
+Proof. exact step_Inv1. Qed.
+Print Assumptions C04_invariant1_step.
+
+Theorem C04_model_passes_step_checker : forall c s o,
+  has_actions c = false -> c04_domain c s o -> Inv1 s -> c04_step c s o (snd (step c s o)) = true.
+Proof. exact model_passes_c04_step_inv. Qed.
+Print Assumptions C04_model_passes_step_checker.
+
+Theorem C04_model_passes_step_checker_all : forall c,
+  has_actions c = false ->
+  forall ops s, Inv1 s -> c04_domain_run c s ops -> all_steps (c04_step c) c s ops (snd (run c s ops)) = true.
+Proof. exact model_passes_c04_all. Qed.
+Print Assumptions C04_model_passes_step_checker_all.
+
+(* the abstract form of the "exactly once" clause: a step that ends the connections T (one per
+   namespace) and whose disconnect-handler calls are exactly the dispatches for T passes it *)
+Theorem C04_once_clause : forall c s s' obs (T : list (str * str)) (r : pv),
+  Inv s -> sid_one_ns (mg s) ->
+  disc_calls c obs = flat_map (fun nx => chunk c (fst nx) (snd nx) r) T ->
+  (forall n x, In (n, x) T -> is_connected (mg s) (Some x) n = true /\ is_connected (mg s') (Some x) n = false) ->
+  (forall n x e, In (n, x, e) (all_sids (mg s)) -> ~ In (n, x) T ->
+                 is_connected (mg s') (Some x) n = is_connected (mg s) (Some x) n /\
+                 (is_connected (mg s) (Some x) n = true -> is_member (mg s') x = true)) ->
+  NoDup (map fst T) ->
+  (forall k, r <> PStr (sid_name k)) ->
+  (forall n k, In n (get_namespaces (mg s)) -> n <> sid_name k) ->
+  c04_once c s s' obs = true.
+Proof. exact once_clause. Qed.
+Print Assumptions C04_once_clause.
